@@ -48,6 +48,7 @@ static void run_one(int idx, FILE *out, void *vctx) {
         pid_t pid = fork();
         if(pid < 0) die("fork");
         if(pid == 0) {
+            die_with_parent();
             env_reset();
             env_role(tfd, ROLE_TARGET);
             env_set_plan(k->plan, k->nplan);
